@@ -340,10 +340,49 @@ def explore_handler(acc, framing, depth):
     acc.add('nontrivial', ('handler', framing))
 
 
+def explore_coalesced(acc, framing, side):
+    """the garbage and the valid traffic that follows it arrive in ONE read (a receiver that was busy, a buffered
+    adapter): for every garbage event g of the alphabet, fed to a fresh receiver as g + valid frames -- more than 512
+    bytes of them, then 8 more -- the last 8 frames (everything after the allowance) must be delivered."""
+    for name, g in garbage(framing, side):
+        fs, n, i = [], 0, 0
+        while n < WARM + 8:
+            f = valid(framing, side, i)
+            fs.append(f)
+            n += len(f)
+            i += 1
+        tail = [valid(framing, side, 2000 + k) for k in range(8)]
+        expect = []
+        for k, f in enumerate(tail):
+            ek = (framing, side, 'exp', 2000 + k)
+            if ek not in _VC:
+                _VC[ek] = framers.feed(framers.make(framing, side), f, [UNIT], False)[0]
+            expect.extend(_VC[ek])
+        fr = framers.make(framing, side)
+        out, exc = framers.feed(fr, g + b''.join(fs) + b''.join(tail), [UNIT], False)
+        # what was still buffered is looked at again when the next frame arrives
+        out2, exc2 = framers.feed(fr, valid(framing, side, 3000), [UNIT], False)
+        acc.inc('obligations')
+        got = list(out) + list(out2)
+        missing = [e for e in expect if got.count(e) == 0]
+        if missing:
+            acc.violation('C11/%s/%s/coalesced-read/%s' % (framing, side, gclass(name)),
+                          dict(framing=framing, side=side, coalesced=name),
+                          'one read = %s (%d bytes) + %d bytes of valid frames + 8 more frames: %d of the last 8 were not delivered (%d messages delivered in all%s)'
+                          % (name, len(g), n, len(missing), len(got), ', exception %r' % (exc,) if exc else ''), '%s/%s' % (framing, side))
+        else:
+            acc.inc('discharged')
+    acc.add('nontrivial', ('coalesced', framing, side))
+
+
 def shard(args):
     if args[0] == 'handler':
         acc = Acc()
         explore_handler(acc, args[1], args[2])
+        return acc
+    if args[0] == 'coalesced':
+        acc = Acc()
+        explore_coalesced(acc, args[1], args[2])
         return acc
     framing, side, depth, part, parts = args
     acc = Acc()
@@ -356,6 +395,7 @@ def run(tier, seed):
     parts = 8
     shards = [(f, s, depth, k, parts) for f in ('rtu', 'ascii', 'binary') for s in ('req', 'rsp') for k in range(parts)]
     shards += [('handler', f, depth) for f in ('rtu', 'ascii', 'binary')]
+    shards += [('coalesced', f, s) for f in ('rtu', 'ascii', 'binary') for s in ('req', 'rsp')]
     acc = par.run_shards(shard, shards)
     acc.n['traces_validated_against_impl'] = acc.n.get('obligations', 0)
     acc.n['evaluations'] = acc.n.get('obligations', 0)
@@ -367,7 +407,7 @@ def run(tier, seed):
                          'non-trivial = states other than the fresh framer',
                     bounds='garbage alphabet per framer (16 delimiter/boundary bytes, unit id, 5 function codes, bad checksum, foreign unit, every truncation, '
                            'deleted/duplicated character, framer-specific degenerate delimiters); depth %d (full alphabet at depth < 2, reduced beyond); '
-                           'warm-up 512 bytes of valid traffic, then 4 reads' % depth),
+                           'warm-up 512 bytes of valid traffic, then 4 reads; plus, per garbage event, one read holding the event, > 512 bytes of valid frames and 8 more frames' % depth),
                 assumptions=['"bounded amount of valid traffic" is taken as 2 x 256 bytes as in the property text',
                              'an exception escaping processIncomingPacket is not itself a C11 violation; the two caller policies model what callers do next'])
 
@@ -376,6 +416,11 @@ def replay(w):
     if w['side'] == 'handler':
         acc = Acc()
         explore_handler(acc, w['framing'], 3)
+        vs = [v for v in acc.violations if v['witness'] == w]
+        return bool(vs), '\n'.join(v['msg'] for v in vs) or 'no violation'
+    if 'coalesced' in w:
+        acc = Acc()
+        explore_coalesced(acc, w['framing'], w['side'])
         vs = [v for v in acc.violations if v['witness'] == w]
         return bool(vs), '\n'.join(v['msg'] for v in vs) or 'no violation'
     framing, side = w['framing'], w['side']
